@@ -8,24 +8,24 @@ package frame
 
 // ---------------------------------------------------------------- integer codecs
 
-//@ func uint24Encode
+//@ func uint24Encode params (buf, in)
 //@   requires len(buf) >= 3
 //@   ensures  buf[0] == byte(in & 0xFF) && buf[1] == byte((in >> 8) & 0xFF) && buf[2] == byte((in >> 16) & 0xFF)
 //@   canary   buf[1] == byte(in >> 16)
 //@   modifies buf[:]
 
-//@ func uint24Decode
+//@ func uint24Decode params (in) returns (res)
 //@   requires len(in) >= 3
 //@   ensures  res == uint32(in[0]) + uint32(in[1])*256 + uint32(in[2])*65536
 //@   modifies nothing
 
-//@ func uint48Encode
+//@ func uint48Encode params (buf, in)
 //@   requires len(buf) >= 6
 //@   ensures  buf[0] == byte(in) && buf[1] == byte(in >> 8) && buf[2] == byte(in >> 16)
 //@   ensures  buf[3] == byte(in >> 24) && buf[4] == byte(in >> 32) && buf[5] == byte(in >> 40)
 //@   modifies buf[:]
 
-//@ func uint48Decode
+//@ func uint48Decode params (in) returns (res)
 //@   requires len(in) >= 6
 //@   ensures  res == uint64(in[0]) + uint64(in[1])<<8 + uint64(in[2])<<16 + uint64(in[3])<<24 + uint64(in[4])<<32 + uint64(in[5])<<40
 //@   ensures  res < 1<<48
@@ -33,11 +33,11 @@ package frame
 
 // ---------------------------------------------------------------- empty-byte helpers
 
-//@ func hasEmptyBytes
+//@ func hasEmptyBytes params (buf) returns (res)
 //@   ensures  res == (len(buf) > 1 && buf[len(buf)-1] == 0)
 //@   modifies nothing
 
-//@ func removeEmptyBytes
+//@ func removeEmptyBytes params (buf) returns (res)
 //@   ensures  sameArray(res, buf) && len(res) <= len(buf)
 //@   ensures  len(buf) >= 1 ==> len(res) >= 1
 //@   ensures  len(buf) == 0 ==> len(res) == 0
@@ -52,14 +52,14 @@ package frame
 
 // ---------------------------------------------------------------- checksum and signature
 
-//@ func (V1Frame).GenerateChecksum
+//@ func (V1Frame).GenerateChecksum params (f, crcExtra) returns (res)
 //@   requires f.Message != nil && specIsRaw(f.Message)
 //@   ensures  res == specV1CRC(byte(len(specRawPayload(f.Message))), f.SequenceNumber, f.SystemID, f.ComponentID,
 //@                             byte(specRawID(f.Message)), specRawPayload(f.Message), crcExtra)
 //@   canary   res == 0
 //@   modifies nothing
 
-//@ func (V2Frame).GenerateChecksum
+//@ func (V2Frame).GenerateChecksum params (f, crcExtra) returns (res)
 //@   requires f.Message != nil && specIsRaw(f.Message)
 //@   ensures  res == specV2CRC(byte(len(specRawPayload(f.Message))), f.IncompatibilityFlag, f.CompatibilityFlag,
 //@                             f.SequenceNumber, f.SystemID, f.ComponentID, specRawID(f.Message),
@@ -67,7 +67,7 @@ package frame
 //@   canary   res == 0
 //@   modifies nothing
 
-//@ func (V2Frame).GenerateSignature
+//@ func (V2Frame).GenerateSignature params (f, key) returns (res)
 //@   requires key != nil && f.Message != nil && specIsRaw(f.Message)
 //@   ensures  res != nil && freshPtr(res)
 //@   ensures  specSigMatches(*res, specSigState(key, byte(len(specRawPayload(f.Message))), f.IncompatibilityFlag,
@@ -76,13 +76,13 @@ package frame
 //@   canary   res[0] == 0
 //@   modifies nothing
 
-//@ func (V2Frame).IsSigned
+//@ func (V2Frame).IsSigned params (f) returns (res)
 //@   ensures  res == (f.IncompatibilityFlag & 1 != 0)
 //@   modifies nothing
 
 // ---------------------------------------------------------------- marshalling
 
-//@ func (V1Frame).marshalTo returns (n, err)
+//@ func (V1Frame).marshalTo params (f, buf, msgEncoded) returns (n, err)
 //@   requires f.Message != nil && len(msgEncoded) <= 255 && len(buf) >= 263
 //@   ensures  f.Message.GetID() > 255 ==> err != nil && n == 0 && unchangedBytes(buf)
 //@   ensures  f.Message.GetID() <= 255 ==> err == nil && n == specV1Len(len(msgEncoded))
@@ -91,7 +91,7 @@ package frame
 //@   canary   n == 8
 //@   modifies buf[:]
 
-//@ func (V2Frame).marshalTo returns (n, err)
+//@ func (V2Frame).marshalTo params (f, buf, msgEncoded) returns (n, err)
 //@   requires f.Message != nil && len(msgEncoded) <= 255 && len(buf) >= 280
 //@   requires f.IncompatibilityFlag & 1 != 0 ==> f.Signature != nil
 //@   ensures  err == nil && n == specV2Len(len(msgEncoded), f.IncompatibilityFlag & 1 != 0)
@@ -104,7 +104,7 @@ package frame
 
 // ---------------------------------------------------------------- unmarshalling (magic byte already consumed)
 
-//@ func (*V1Frame).unmarshal
+//@ func (*V1Frame).unmarshal params (f, br) returns (err)
 //@   requires f != nil && br != nil
 //@   ensures  (err == nil) == specV1Complete(br, old(streamPos(br)))
 //@   ensures  err == nil ==> streamPos(br) == old(streamPos(br)) + specV1Size(br, old(streamPos(br)))
@@ -115,7 +115,7 @@ package frame
 //@   canary   err == nil
 //@   modifies *f, *br
 
-//@ func (*V2Frame).unmarshal
+//@ func (*V2Frame).unmarshal params (f, br) returns (err)
 //@   requires f != nil && br != nil
 //@   ensures  (err == nil) == specV2Complete(br, old(streamPos(br)))
 //@   ensures  err == nil ==> streamPos(br) == old(streamPos(br)) + specV2Size(br, old(streamPos(br)))
@@ -131,14 +131,14 @@ package frame
 
 // ---------------------------------------------------------------- frame writer
 
-//@ func (*Writer).Initialize
+//@ func (*Writer).Initialize params (w) returns (err)
 //@   requires w != nil
 //@   ensures  (err != nil) == (old(w.ByteWriter) == nil)
 //@   ensures  err == nil ==> len(w.bw) == 512 && freshBytes(w.bw)
 //@   ensures  err == nil ==> (old(w.OutComponentID) < 1 ==> w.OutComponentID == 1) && (old(w.OutComponentID) >= 1 ==> w.OutComponentID == old(w.OutComponentID))
 //@   modifies w.bw, w.OutComponentID
 
-//@ func (*Writer).writeFrameInner
+//@ func (*Writer).writeFrameInner params (w, fr) returns (err)
 //@   requires w != nil && w.ByteWriter != nil && len(w.bw) == 512
 //@   requires fr != nil && specRawOK(fr) && specSigFieldOK(fr)
 //@   ensures  [refused]  specRefusedByVersion(fr) ==> err != nil && logLen() == 0
@@ -148,7 +148,7 @@ package frame
 //@   canary   logLen() == 0
 //@   modifies w.bw[:], ghost:log
 
-//@ func (*Writer).Write
+//@ func (*Writer).Write params (w, fr) returns (err)
 //@   requires w != nil && w.ByteWriter != nil && len(w.bw) == 512 && fr != nil && specSigFieldOK(fr)
 //@   requires specFrameMessage(fr) != nil && specIsRaw(specFrameMessage(fr)) ==> len(specRawPayload(specFrameMessage(fr))) <= 255
 //@   ensures  [nil-message] old(specFrameMessage(fr)) == nil ==> err != nil && logLen() == 0
@@ -174,13 +174,13 @@ package frame
 
 // ---------------------------------------------------------------- frame reader
 
-//@ func (*Reader).Initialize
+//@ func (*Reader).Initialize params (r) returns (err)
 //@   requires r != nil
 //@   ensures  (err == nil) == (r.BufByteReader != nil)
 //@   ensures  old(r.ByteReader) != nil ==> r.BufByteReader != nil && freshPtr(r.BufByteReader)
 //@   modifies r.BufByteReader when old(r.ByteReader) != nil
 
-//@ func (*Reader).Read returns (fr, err)
+//@ func (*Reader).Read params (r) returns (fr, err)
 //@   let br   = r.BufByteReader
 //@   let p0   = old(streamPos(r.BufByteReader))
 //@   let av   = streamAvail(r.BufByteReader)
@@ -221,7 +221,7 @@ package frame
 
 // ---------------------------------------------------------------- originating writer (deprecated API, same code shape as streamwriter)
 
-//@ func (*Writer).writeFrameAndFill
+//@ func (*Writer).writeFrameAndFill params (w, fr) returns (err)
 //@   let msg0 = old(specFrameMessage(fr))
 //@   let inD  = (w.DialectRW != nil && ufDialectHas(w.DialectRW, old(specFrameMessage(fr).GetID())))
 //@   requires w != nil && w.ByteWriter != nil && len(w.bw) == 512 && fr != nil
@@ -255,7 +255,7 @@ package frame
 
 // the helper that re-encodes a decoded message inside a frame (inlined at its call sites; verified on its own so that
 // the version it encodes for is pinned): one encoding, by the given codec, for the frame's OWN version
-//@ func encodeMessageInFrame
+//@ func encodeMessageInFrame params (fr, mp)
 //@   inline
 //@   ghostlog (*message.ReadWriter).Write+contract
 //@   requires fr != nil && mp != nil && specFrameMessage(fr) != nil && !specIsRaw(specFrameMessage(fr)) && message.SpecCodecInv(mp)
@@ -264,7 +264,7 @@ package frame
 //@   modifies ghost:log, *specMessageField(fr)
 
 // the combined reader/writer: every option goes to the half it belongs to
-//@ func (*ReadWriter).Initialize
+//@ func (*ReadWriter).Initialize params (rw) returns (err)
 //@   requires rw != nil
 //@   ensures  [needs-a-transport] (err != nil) == (rw.ByteReadWriter == nil)
 //@   ensures  [reader-half] err == nil ==> rw.Reader != nil && rw.Reader.BufByteReader != nil && rw.Reader.InKey == rw.InKey &&
@@ -276,13 +276,13 @@ package frame
 //@   modifies rw.Reader, rw.Writer
 
 // deprecated constructors: every option reaches the field of the same name; verified on their own, inlined at call sites
-//@ func NewReader returns (r, err)
+//@ func NewReader params (conf) returns (r, err)
 //@   inline
 //@   ensures  r != nil && r.ByteReader == conf.Reader && r.DialectRW == conf.DialectRW && r.InKey == conf.InKey
 //@   ensures  (err == nil) == (conf.Reader != nil)
 //@   modifies nothing
 
-//@ func NewWriter returns (w, err)
+//@ func NewWriter params (conf) returns (w, err)
 //@   inline
 //@   ensures  w != nil && w.ByteWriter == conf.Writer && w.DialectRW == conf.DialectRW && w.OutVersion == conf.OutVersion &&
 //@            w.OutSystemID == conf.OutSystemID && w.OutSignatureLinkID == conf.OutSignatureLinkID && w.OutKey == conf.OutKey &&
@@ -290,7 +290,7 @@ package frame
 //@   ensures  (err == nil) == (conf.Writer != nil)
 //@   modifies nothing
 
-//@ func NewReadWriter returns (rw, err)
+//@ func NewReadWriter params (conf) returns (rw, err)
 //@   ghostlog (*frame.ReadWriter).Initialize
 //@   ensures  rw != nil && rw.ByteReadWriter == conf.ReadWriter && rw.DialectRW == conf.DialectRW && rw.InKey == conf.InKey && rw.OutKey == conf.OutKey &&
 //@            rw.OutVersion == conf.OutVersion && rw.OutSystemID == conf.OutSystemID && rw.OutComponentID == conf.OutComponentID &&
@@ -299,7 +299,7 @@ package frame
 //@   modifies ghost:log
 
 // deprecated entry points
-//@ func (*Writer).WriteMessage
+//@ func (*Writer).WriteMessage params (w, m) returns (err)
 //@   ghostlog (*frame.Writer).writeFrameAndFill
 //@   requires w != nil
 //@   ensures  [wrapped-in-a-frame-of-the-configured-version] logLen() == 1 && logCallee(0, "(*frame.Writer).writeFrameAndFill") && logArgIsPtr(0, 0, w) &&
@@ -307,64 +307,64 @@ package frame
 //@              (w.OutVersion == V1) == !SpecIsV2(logArg(0, 1).(Frame))
 //@   modifies ghost:log
 
-//@ func (*Writer).WriteFrame
+//@ func (*Writer).WriteFrame params (w, fr) returns (err)
 //@   ghostlog (*frame.Writer).Write
 //@   requires w != nil
 //@   ensures  [same-as-write] logLen() == 1 && logCallee(0, "(*frame.Writer).Write") && logArgIsPtr(0, 0, w) && logArg(0, 1) == any(fr) && err == logRetErr(0)
 //@   modifies ghost:log
 
 // ---------------------------------------------------------------- accessors: each returns the field of its name
-//@ func (V1Frame).GetSystemID
+//@ func (V1Frame).GetSystemID params (f) returns (res)
 //@   inline
 //@   ensures  res == f.SystemID
 //@   modifies nothing
 
-//@ func (V1Frame).GetComponentID
+//@ func (V1Frame).GetComponentID params (f) returns (res)
 //@   inline
 //@   ensures  res == f.ComponentID
 //@   modifies nothing
 
-//@ func (V1Frame).GetSequenceNumber
+//@ func (V1Frame).GetSequenceNumber params (f) returns (res)
 //@   inline
 //@   ensures  res == f.SequenceNumber
 //@   modifies nothing
 
-//@ func (V1Frame).GetMessage
+//@ func (V1Frame).GetMessage params (f) returns (res)
 //@   inline
 //@   ensures  res == f.Message
 //@   modifies nothing
 
-//@ func (V1Frame).GetChecksum
+//@ func (V1Frame).GetChecksum params (f) returns (res)
 //@   inline
 //@   ensures  res == f.Checksum
 //@   modifies nothing
 
-//@ func (V2Frame).GetSystemID
+//@ func (V2Frame).GetSystemID params (f) returns (res)
 //@   inline
 //@   ensures  res == f.SystemID
 //@   modifies nothing
 
-//@ func (V2Frame).GetComponentID
+//@ func (V2Frame).GetComponentID params (f) returns (res)
 //@   inline
 //@   ensures  res == f.ComponentID
 //@   modifies nothing
 
-//@ func (V2Frame).GetSequenceNumber
+//@ func (V2Frame).GetSequenceNumber params (f) returns (res)
 //@   inline
 //@   ensures  res == f.SequenceNumber
 //@   modifies nothing
 
-//@ func (V2Frame).GetMessage
+//@ func (V2Frame).GetMessage params (f) returns (res)
 //@   inline
 //@   ensures  res == f.Message
 //@   modifies nothing
 
-//@ func (V2Frame).GetChecksum
+//@ func (V2Frame).GetChecksum params (f) returns (res)
 //@   inline
 //@   ensures  res == f.Checksum
 //@   modifies nothing
 
-//@ func NewV2Key
+//@ func NewV2Key params (in) returns (res)
 //@   ensures  [first-32-bytes-copied] res != nil && freshPtr(res) && (forall k int :: 0 <= k && k < 32 && k < len(in) ==> res[k] == in[k]) &&
 //@              (forall k int :: len(in) <= k && k < 32 ==> res[k] == 0)
 //@   modifies nothing
